@@ -1,5 +1,372 @@
-(* Eval16.v — evaluation of C16 observations (stub: replaced when C16 is built). *)
-From Verif Require Import Base Sexp.
+(* Eval16.v — evaluation of C16 observations: real vs model (Chain.v, Zero.v) and real vs
+   specification (the right-hand sides of the theorems in Chain/ChainProofs.v, computed from the
+   failure placement without running the model).
+
+   Values are ids in Z: 0 is "the zero value of the slot's type", the instrumented stage functions
+   of the harness only produce ids >= 1.  Errors are identity tags: 0 = nil, 1 and 2 the two
+   sentinel errors (same text, different pointers), 9 anything else.
+
+   Observation lines (REAL is what the driver saw, or the symbol panic):
+     (compose (a0 .. an) (e0 .. e(n-1)) (args) (ret (res) err ((stage arg ..) ..)))
+     (fmap ARITY gerr gval (ret RES err log))         RES = (res) | nil | (tuple (res) (res))
+     (bind gerr gval ferr (ret (res) err log))
+     (join N err ferr conv (ret (res) err log))
+     (traverse (ids) ((id tag) ..) (ret nil|(res) err (visited ids)))
+     (toerror NOUT (args) success errtag (ret (outs) err ((args))))
+     (zero KIND NAMED LIT)
+     (ir (a0 .. an) (STMT ..))     the body of a generated deriveCompose, translated by the harness:
+                                   STMT = (call ((i j) ..) ev fn ((i j) ..)) | (iferr ev nzeros) | (ret ((i j) ..))
+                                   variables numbered by where they are defined, not by name   *)
+From Verif Require Import Base Sexp Fmap.
+From Verif.Chain Require Import Chain ChainProofs Zero ComposeIR.
 Open Scope string_scope.
 
-Definition eval16 (e : sexp) : verdict := bad_line.
+(* ---- the instrumented stages of the harness ---- *)
+Fixpoint wsum (k : Z) (a : list Z) : Z :=
+  match a with
+  | [] => 0
+  | x :: t => (k * x + wsum (k + 1) t)%Z
+  end.
+
+(* result j of stage i on argument vector a: never 0 *)
+Definition mix (i j : nat) (a : list Z) : Z :=
+  (1 + (31 * Z.of_nat i + 7 * Z.of_nat j + 3 * wsum 1 a) mod 97)%Z.
+
+Definition err_of (z : Z) : option Z := if (z =? 0)%Z then None else Some z.
+Definition err_z (o : option Z) : Z := match o with None => 0%Z | Some e => e end.
+
+Definition hvals (i nres : nat) (a : list Z) : list Z := map (fun j => mix i j a) (seq 0 nres).
+
+(* a stage returns its (junk, non-zero) values next to the error it is configured to report *)
+Definition hstage (i nres : nat) (etag : Z) : @stage Z Z := fun a => (hvals i nres a, err_of etag).
+
+Fixpoint hstages (i : nat) (ar : list nat) (errs : list Z) : list (@stage Z Z) :=
+  match ar, errs with
+  | nres :: ar', e :: errs' => hstage i nres e :: hstages (S i) ar' errs'
+  | _, _ => []
+  end.
+
+(* ---- printing ---- *)
+Definition log_sexp (lg : list (nat * list Z)) : sexp :=
+  L (map (fun '(i, a) => L (of_nat i :: map Num a)) lg).
+
+Definition ret3 (res : sexp) (e : option Z) (lg : sexp) : sexp :=
+  L [Sym "ret"; res; Num (err_z e); lg].
+
+Definition cout_sexp (c : @cout Z Z) : sexp := ret3 (of_zs (c_res c)) (c_err c) (log_sexp (c_log c)).
+
+Definition digit (n : nat) : string :=
+  match n with
+  | 0 => "0" | 1 => "1" | 2 => "2" | 3 => "3" | 4 => "4" | 5 => "5" | 6 => "6" | 7 => "7"
+  | 8 => "8" | _ => "9+"
+  end%nat.
+
+Definition mk (tag : string) (model spec real : sexp) : verdict :=
+  {| v_known := true; v_model_ok := sexp_eqb model real; v_spec_ok := sexp_eqb spec real;
+     v_guard := true; v_model := model; v_tag := tag |}.
+
+(* ---- compose ---- *)
+Fixpoint first_fail (k : nat) (errs : list Z) : option (nat * Z) :=
+  match errs with
+  | [] => None
+  | e :: t => if (e =? 0)%Z then first_fail (S k) t else Some (k, e)
+  end.
+
+Definition get_nats (e : sexp) : option (list nat) := option_map (map Z.to_nat) (get_zs e).
+
+Definition eval_compose (ar errs args real : sexp) : verdict :=
+  match get_nats ar, get_zs errs, get_zs args with
+  | Some (a0 :: ar'), Some es, Some a =>
+      if negb (Nat.eqb (length ar') (length es) && Nat.eqb a0 (length a) && Nat.leb 1 (length es))
+      then bad_line else
+      let fs := hstages 0 ar' es in
+      let nfinal := last ar' 0%nat in
+      let model := cout_sexp (compose 0%Z fs nfinal a) in
+      let ins := inputs fs a in
+      match first_fail 0 es with
+      | Some (k, e) =>
+          let later := existsb (fun x => negb (x =? 0)%Z) (skipn (S k) es) in
+          mk ("compose/n" ++ digit (length es) ++ "/fail@" ++ digit k ++ (if later then "+later" else ""))
+             model
+             (ret3 (of_zs (repeat 0%Z nfinal)) (Some e)
+                   (log_sexp (combine (seq 0 (S k)) (firstn (S k) ins))))
+             real
+      | None =>
+          mk ("compose/n" ++ digit (length es) ++ "/ok") model
+             (ret3 (of_zs (seq_compose fs a)) None (log_sexp (combine (seq 0 (length fs)) ins)))
+             real
+      end
+  | _, _, _ => bad_line
+  end.
+
+(* ---- fmap ---- *)
+Definition gstage (gerr gval : Z) : @stage Z Z := fun _ => ([gval], err_of gerr).
+
+Definition thunk_sexp (t : thunk (list Z)) : option sexp :=
+  match t with
+  | ThNil => Some (Sym "nil")
+  | _ => match thunk_call t, thunk_call t with      (* the driver calls the func twice *)
+         | Ret a, Ret b => Some (L [Sym "tuple"; of_zs a; of_zs b])
+         | _, _ => None
+         end
+  end.
+
+Definition eval_fmap (arity gerr gval real : sexp) : verdict :=
+  match get_nat arity, get_num gerr, get_num gval with
+  | Some n, Some ge, Some gv =>
+      let g := gstage ge gv in
+      let f := fun v => hvals 1 n v in
+      let model :=
+        match n with
+        | 0%nat => cout_sexp (fmap0 (fun _ => tt) g)
+        | 1%nat => cout_sexp (fmap1 0%Z (fun v => mix 1 0 v) g)
+        | _ => let '(th, e, lg) := fmapN f g in
+               match thunk_sexp th with
+               | Some s => ret3 s e (log_sexp lg)
+               | None => Sym "panic"
+               end
+        end in
+      let spec :=
+        if (ge =? 0)%Z then
+          ret3 (match n with
+                | 0%nat => L []
+                | 1%nat => of_zs (f [gv])
+                | _ => L [Sym "tuple"; of_zs (f [gv]); of_zs (f [gv])]
+                end) None (log_sexp [(0%nat, []); (1%nat, [gv])])
+        else
+          ret3 (match n with 0%nat => L [] | 1%nat => of_zs [0%Z] | _ => Sym "nil" end)
+               (Some ge) (log_sexp [(0%nat, [])]) in
+      mk ("fmap/arity" ++ digit n ++ (if (ge =? 0)%Z then "/ok" else "/g-fails")) model spec real
+  | _, _, _ => bad_line
+  end.
+
+Definition eval_bind (gerr gval ferr real : sexp) : verdict :=
+  match get_num gerr, get_num gval, get_num ferr with
+  | Some ge, Some gv, Some fe =>
+      let g := gstage ge gv in
+      let f := hstage 1 1 fe in
+      let model := match bind 0%Z 1 f g with Ret c => cout_sexp c | Panic => Sym "panic" end in
+      let spec :=
+        if (ge =? 0)%Z
+        then ret3 (of_zs [mix 1 0 [gv]]) (err_of fe) (log_sexp [(0%nat, []); (1%nat, [gv])])
+        else ret3 (of_zs [0%Z]) (Some ge) (log_sexp [(0%nat, [])]) in
+      mk (if (ge =? 0)%Z then (if (fe =? 0)%Z then "bind/ok" else "bind/f-fails") else "bind/g-fails")
+         model spec real
+  | _, _, _ => bad_line
+  end.
+
+(* ---- join ---- *)
+Definition eval_join (n err ferr conv real : sexp) : verdict :=
+  match get_nat n, get_num err, get_num ferr, get_num conv with
+  | Some n, Some e, Some fe, Some cv =>
+      let vals := if negb (cv =? 0)%Z && negb (fe =? 0)%Z then repeat 0%Z n else hvals 0 n [] in
+      let f : @stage Z Z := fun _ => (vals, err_of fe) in
+      let model := cout_sexp (join 0%Z n f (err_of e)) in
+      let spec :=
+        if (e =? 0)%Z then ret3 (of_zs vals) (err_of fe) (log_sexp [(0%nat, [])])
+        else ret3 (of_zs (repeat 0%Z n)) (Some e) (log_sexp []) in
+      mk ("join/n" ++ digit n ++
+          (if (e =? 0)%Z then (if (fe =? 0)%Z then "/ok" else if (cv =? 0)%Z then "/f-fails-junk" else "/f-fails")
+           else "/err"))
+         model spec real
+  | _, _, _, _ => bad_line
+  end.
+
+(* ---- traverse ---- *)
+Fixpoint lookup (x : Z) (tbl : list (Z * Z)) : Z :=
+  match tbl with
+  | [] => 0%Z
+  | (k, v) :: t => if (k =? x)%Z then v else lookup x t
+  end.
+
+Definition get_pair (e : sexp) : option (Z * Z) :=
+  match e with L [Num a; Num b] => Some (a, b) | _ => None end.
+
+Definition tstage (tbl : list (Z * Z)) (x : Z) : Z * option Z := (mix 0 0 [x], err_of (lookup x tbl)).
+
+Definition gslice_sexp (s : gslice Z) : sexp :=
+  match s with SNil => Sym "nil" | SList l => of_zs l end.
+
+Fixpoint first_bad (tbl : list (Z * Z)) (seen todo : list Z) : option (list Z * Z) :=
+  match todo with
+  | [] => None
+  | x :: t => if (lookup x tbl =? 0)%Z then first_bad tbl (seen ++ [x])%list t
+              else Some ((seen ++ [x])%list, lookup x tbl)
+  end.
+
+Definition eval_traverse (ids tbl real : sexp) : verdict :=
+  match get_zs ids, tbl with
+  | Some l, L tl =>
+      match map_opt get_pair tl with
+      | Some tb =>
+          let model := match traverse 0%Z (tstage tb) l with
+                       | Ret (s, e, lg) => ret3 (gslice_sexp s) e (of_zs lg)
+                       | Panic => Sym "panic"
+                       end in
+          match first_bad tb [] l with
+          | Some (visited, e) =>
+              mk ("traverse/len" ++ digit (length l) ++ "/fail@" ++ digit (length visited - 1))
+                 model (ret3 (Sym "nil") (Some e) (of_zs visited)) real
+          | None =>
+              mk ("traverse/len" ++ digit (length l) ++ "/ok")
+                 model (ret3 (of_zs (map (fun x => mix 0 0 [x]) l)) None (of_zs l)) real
+          end
+      | None => bad_line
+      end
+  | _, _ => bad_line
+  end.
+
+(* ---- toerror ---- *)
+Definition eval_toerror (nout args success etag real : sexp) : verdict :=
+  match get_nat nout, get_zs args, get_num success, get_num etag with
+  | Some n, Some a, Some sc, Some et =>
+      let ok := negb (sc =? 0)%Z in
+      let f := fun x => (hvals 0 n x, ok) in
+      let '(outs, e, lg) := toerror (err_of et) f a in
+      let model := ret3 (of_zs outs) e (L (map of_zs lg)) in
+      let spec := ret3 (of_zs (hvals 0 n a)) (if ok then None else err_of et) (L [of_zs a]) in
+      mk ("toerror/n" ++ digit n ++ (if ok then "/true" else "/false") ++
+          (if (et =? 0)%Z then "/nil-err" else ""))
+         model spec real
+  | _, _, _, _ => bad_line
+  end.
+
+(* ---- zero literals (structural: the literal text found in derived.gen.go) ---- *)
+Definition shape_of (e : sexp) : option shape :=
+  match e with
+  | Sym s =>
+      if String.eqb s "bool" then Some (SBasic BBool) else
+      if String.eqb s "string" then Some (SBasic BString) else
+      if String.eqb s "numeric" then Some (SBasic BNumeric) else
+      if String.eqb s "unsafeptr" then Some (SBasic BUnsafePointer) else
+      if String.eqb s "ptr" then Some SPtr else
+      if String.eqb s "slice" then Some SSlice else
+      if String.eqb s "map" then Some SMap else
+      if String.eqb s "chan" then Some SChan else
+      if String.eqb s "func" then Some SFunc else
+      if String.eqb s "iface" then Some SIface else
+      if String.eqb s "struct" then Some SStruct else
+      if String.eqb s "array" then Some SArray else None
+  | _ => None
+  end.
+
+Definition lit_of (e : sexp) : option lit :=
+  match e with
+  | Sym s =>
+      if String.eqb s "nil" then Some LNil else
+      if String.eqb s "zero" then Some LZero else
+      if String.eqb s "empty" then Some LEmpty else
+      if String.eqb s "false" then Some LFalse else
+      if String.eqb s "composite" then Some (LComposite "T") else   (* the text is TypeString(t) ++ "{}" *)
+      if String.eqb s "other" then Some (LComposite "?") else None
+  | _ => None
+  end.
+
+Definition lit_sexp (l : lit) : sexp :=
+  match l with
+  | LNil => Sym "nil" | LZero => Sym "zero" | LEmpty => Sym "empty" | LFalse => Sym "false"
+  | LComposite s => if String.eqb s "T" then Sym "composite" else Sym "other"
+  end.
+
+Definition eval_zero (kind nm real : sexp) : verdict :=
+  match shape_of kind, get_num nm, lit_of real with
+  | Some sh, Some n, Some l =>
+      let t := {| named := negb (n =? 0)%Z; under := sh; tname := "T" |} in
+      {| v_known := true;
+         v_model_ok := sexp_eqb (lit_sexp (zero_literal t)) real;
+         v_spec_ok := lit_ok l t;
+         v_guard := true;
+         v_model := lit_sexp (zero_literal t);
+         v_tag := "zero/" ++ (match kind with Sym s => s | _ => "?" end) ++
+                  (if (n =? 0)%Z then "" else "/named") |}
+  | _, _, _ => bad_line
+  end.
+
+(* ---- the translated text of a generated deriveCompose (T) ---- *)
+Definition vn_sexp (x : vname) : sexp := L [of_nat (fst x); of_nat (snd x)].
+Definition stmt_sexp (st : stmt) : sexp :=
+  match st with
+  | SCall outs ev fn args => L [Sym "call"; L (map vn_sexp outs); of_nat ev; of_nat fn; L (map vn_sexp args)]
+  | SIfErr ev nz => L [Sym "iferr"; of_nat ev; of_nat nz]
+  | SRet vals => L [Sym "ret"; L (map vn_sexp vals)]
+  end.
+
+Definition get_vn (e : sexp) : option vname :=
+  match e with L [Num a; Num b] => Some (Z.to_nat a, Z.to_nat b) | _ => None end.
+Definition get_vns (e : sexp) : option (list vname) :=
+  match e with L l => map_opt get_vn l | _ => None end.
+Definition get_stmt (e : sexp) : option stmt :=
+  match e with
+  | L [Sym k; a; Num ev; Num fn; b] =>
+      if String.eqb k "call" then
+        match get_vns a, get_vns b with
+        | Some outs, Some args => Some (SCall outs (Z.to_nat ev) (Z.to_nat fn) args)
+        | _, _ => None
+        end
+      else None
+  | L [Sym k; Num ev; Num nz] => if String.eqb k "iferr" then Some (SIfErr (Z.to_nat ev) (Z.to_nat nz)) else None
+  | L [Sym k; a] => if String.eqb k "ret" then option_map SRet (get_vns a) else None
+  | _ => None
+  end.
+
+(* error placements used to run the translated text: none, and each stage alone *)
+Fixpoint placements (n k : nat) : list (list Z) :=
+  match k with
+  | O => [repeat 0%Z n]
+  | S k' => (repeat 0%Z k' ++ [1%Z] ++ repeat 0%Z (n - k))%list :: placements n k'
+  end.
+
+Definition cout_eqb (a b : option (@cout Z Z)) : bool :=
+  match a, b with
+  | Some x, Some y => sexp_eqb (cout_sexp x) (cout_sexp y)
+  | _, _ => false
+  end.
+
+Definition eval_ir (ar body : sexp) : verdict :=
+  match get_nats ar, body with
+  | Some (a0 :: ar'), L stmts =>
+      match map_opt get_stmt stmts with
+      | Some real =>
+          let n := length ar' in
+          let args := map Z.of_nat (seq 1 a0) in
+          let nfinal := last ar' 0%nat in
+          let expected := compose_body (a0 :: ar') in
+          let same_meaning :=
+            forallb (fun errs =>
+                       let fs := hstages 0 ar' errs in
+                       cout_eqb (exec 0%Z fs real (combine (vrow 0 a0) args) [] [])
+                                (Some (compose 0%Z fs nfinal args)))
+                    (placements n n) in
+          {| v_known := true;
+             v_model_ok := sexp_eqb (L (map stmt_sexp expected)) body;
+             v_spec_ok := same_meaning;
+             v_guard := true;
+             v_model := L (map stmt_sexp expected);
+             v_tag := "compose-text/n" ++ digit n |}
+      | None => bad_line
+      end
+  | _, _ => bad_line
+  end.
+
+Definition eval16 (e : sexp) : verdict :=
+  match e with
+  | L (Sym k :: rest) =>
+      match rest with
+      | [ar; errs; args; real] =>
+          if String.eqb k "compose" then eval_compose ar errs args real else
+          if String.eqb k "fmap" then eval_fmap ar errs args real else
+          if String.eqb k "bind" then eval_bind ar errs args real else
+          bad_line
+      | [n; err; ferr; conv; real] =>
+          if String.eqb k "join" then eval_join n err ferr conv real else
+          if String.eqb k "toerror" then eval_toerror n err ferr conv real else
+          bad_line
+      | [a; b; real] =>
+          if String.eqb k "traverse" then eval_traverse a b real else
+          if String.eqb k "zero" then eval_zero a b real else
+          bad_line
+      | [a; b] => if String.eqb k "ir" then eval_ir a b else bad_line
+      | _ => bad_line
+      end
+  | _ => bad_line
+  end.
